@@ -1,5 +1,86 @@
-From DustDDS Require Import Base.Machine Base.Bytes Wire.WireModel Wire.WireProofs.
+(* C08 — RTPS messages round-trip through their wire encoding.
+   Property file: statements over the definitions of Wire/WireModel.v, `exact`, assumptions.
+     encode_umessage e h subs  RtpsMessageWrite::new on submessages built with the public
+                               constructors (sets from base + members through new());
+                               e = true is the little-endian layout dust-dds writes,
+                               e = false the big-endian layout of the same message
+     parse_observe bytes       RtpsMessageRead::try_from, every submessage read through its accessors
+     canon_sub                 identity except: set members ordered, parameter values padded to 4,
+                               fields excluded by flags come back as defaults
+     wf_subb / wf_hdrb         the bounds of the Rust types (array sizes, i32/u32/i64/u16 ranges),
+                               set members within base..base+255, parameter id <> PID_SENTINEL
+     C08_known_len             a submessage body or a padded parameter longer than 65535 bytes
+     C08_known_reply           INFO_REPLY built with multicast_flag = true *)
+From DustDDS Require Import Base.Machine Base.Bytes Wire.WireModel Wire.WireProofs Wire.WireRoundProofs.
 Open Scope Z_scope.
-Theorem C08_u32_codec : forall x, in_u32 x -> dec_le (enc_le 4 x) = x.
-Proof. exact placeholder_u32. Qed.
-Print Assumptions C08_u32_codec.
+
+(* full statement: all 12 submessage kinds, any number of submessages up to MAX_SUBMESSAGES,
+   both endiannesses, every length field exact *)
+Theorem C08_message_roundtrip : forall e h subs,
+  wf_hdrb h = true -> forallb wf_subb subs = true -> len subs <= 65536 ->
+  existsb C08_known_len subs = false -> existsb C08_known_reply subs = false ->
+  exists bytes,
+    encode_umessage e h subs = Ok bytes /\
+    parse_observe bytes = Ok (h, map (fun s => Ok (canon_sub s)) subs) /\
+    lengths_exact e (map sub_id subs) (skipn 20 bytes) = true.
+Proof. exact message_roundtrip. Qed.
+
+(* the unconditional version is false: 16-bit length truncation (finding C08-length-truncation) *)
+Theorem C08_roundtrip_refuted_big :
+  wf_hdrb h0 = true /\ forallb wf_subb [big_data; hb] = true /\ C08_known_len big_data = true /\
+  encode_umessage true h0 [big_data; hb] = Ok big_bytes /\
+  parse_observe big_bytes <> Ok (h0, map (fun s => Ok (canon_sub s)) [big_data; hb]) /\
+  lengths_exact true (map sub_id [big_data; hb]) (skipn 20 big_bytes) = false.
+Proof. exact roundtrip_refuted_big. Qed.
+
+(* INFO_REPLY with the multicast flag comes back without flag and multicast list
+   (finding C08-inforeply-multicast-flag) *)
+Theorem C08_roundtrip_refuted_reply :
+  forallb wf_subb [reply_m] = true /\ C08_known_len reply_m = false /\ C08_known_reply reply_m = true /\
+  exists bytes, encode_umessage true h0 [reply_m] = Ok bytes /\
+    parse_observe bytes = Ok (h0, [Ok (InfoReply false [mk_loc 1 7400 (repeat 0 16)] [])]).
+Proof. exact roundtrip_refuted_reply. Qed.
+
+(* the integer codecs in both endiannesses, and sequence numbers over the full i64 range *)
+Theorem C08_int_codec : forall e n x, dec_int e (enc_int e n x) = x mod 256 ^ Z.of_nat n.
+Proof. exact dec_enc_int. Qed.
+
+Theorem C08_sequence_number_full_range : forall e x rest, in_i64 x ->
+  fst (read_sn e (enc_sn e x ++ rest)) = Ok (x, rest).
+Proof. exact (fun e x rest H => rd_sn e x H rest). Qed.
+
+(* SequenceNumberSet / FragmentNumberSet: new() on any valid member list never panics and the
+   set() iterator of the result lists exactly the canonical members *)
+Theorem C08_sequence_number_set_new : forall s, valid_snsetb s = true ->
+  exists x, snset_new (ns_base s) (ns_members s) = Ok x /\ ss_base x = ns_base s /\
+            snset_members x = Ok (canon_members (ns_members s)).
+Proof. intros s H; destruct (snset_new_valid s H) as (x & A & _ & B & C); exists x; auto. Qed.
+
+Theorem C08_fragment_number_set_new : forall s, valid_fnsetb s = true ->
+  exists x, fnset_new (ns_base s) (ns_members s) = Ok x /\ fs_base x = ns_base s /\
+            fnset_members x = Ok (canon_members (ns_members s)).
+Proof. intros s H; destruct (fnset_new_valid s H) as (x & A & _ & B & C); exists x; auto. Qed.
+
+(* non-vacuity: a concrete message with sets, inline QoS and payload meets the hypotheses *)
+Example C08_nonvacuous :
+  let subs : list usub :=
+    [InfoTs false 4 5;
+     Data true true false false [1;2;3;4] [6;7;8;9] 9223372036854775807 [mk_param 112 [10;11;12]] [170;187;204];
+     AckNack true [1;2;3;4] [6;7;8;9] (mk_nset (-9223372036854775808) [-9223372036854775808; -9223372036854775553]) (-3);
+     NackFrag [1;2;3;4] [6;7;8;9] 7 (mk_nset 4294967040 [4294967295; 4294967040]) 1] in
+  wf_hdrb h0 = true /\ forallb wf_subb subs = true /\
+  existsb C08_known_len subs = false /\ existsb C08_known_reply subs = false /\
+  (exists b, encode_umessage false h0 subs = Ok b /\ parse_observe b = Ok (h0, map (fun s => Ok (canon_sub s)) subs)).
+Proof.
+  cbv zeta. split; [vm_compute; reflexivity|]. split; [vm_compute; reflexivity|].
+  split; [vm_compute; reflexivity|]. split; [vm_compute; reflexivity|].
+  eexists; split; vm_compute; reflexivity.
+Qed.
+
+Print Assumptions C08_message_roundtrip.
+Print Assumptions C08_roundtrip_refuted_big.
+Print Assumptions C08_roundtrip_refuted_reply.
+Print Assumptions C08_int_codec.
+Print Assumptions C08_sequence_number_full_range.
+Print Assumptions C08_sequence_number_set_new.
+Print Assumptions C08_fragment_number_set_new.
